@@ -371,6 +371,11 @@ def compare_reverse_complement(before, after, ctx, where, report, check_seq=True
             report("rc-feature-strand", "%s: feature %s at %r became %r: strand not flipped" % (where, key, p0, p1), n=n, before=p0, after=p1)
         elif not same_denotation(exp, d1, n, stranded=stranded):
             report("rc-feature-location", "%s on length %d: feature %s at %r became %r, which is not the mirror image p -> n-1-p in the same reading order" % (where, n, key, p0, p1), n=n, before=p0, after=p1)
+        elif len(p0) > 1 and all(x[2] is None for x in p0) and d1 != exp[::-1]:
+            # a join whose parts all have strand None is read left to right in the order its parts are listed: to denote the reverse
+            # complement of what it denoted, the mirrored parts have to be listed in the opposite order (Biopython does so for these
+            # joins only; parts with strand 0 keep their order there, and stay compared as a set of positions)
+            report("rc-feature-part-order", "%s on length %d: strand-less join %s at %r became %r: the same nucleotides, but no longer read in the mirrored order" % (where, n, key, p0, p1), n=n, before=p0, after=p1)
 
     keyed0 = {k: v for k, v in ft0.items() if k[0] == "uid"}
     keyed1 = {k: v for k, v in ft1.items() if k[0] == "uid"}
